@@ -6,6 +6,7 @@
   The double SHA-256 is a parameter `H`.
 -/
 import GoBT.Sighash.Model
+import GoBT.Gen.Limits
 namespace GoBT.C02
 open GoBT GoBT.Sighash
 
@@ -138,5 +139,13 @@ example : ∃ (H : Hash) (tx : Tx) (i : Input) (sc : Bytes),
                  { prevTxID := [2, 3], vout := 7, unlocking := none, sequence := 5, prevSats := 9,
                    prevScript := some [0x51] } ] },
    _, [0x51], by simp [zero32], rfl, by simp, rfl⟩
+
+/-- ✓gen — the hash-type constants of sighash/flag.go are the ones the model uses -/
+theorem sighash_consts_match :
+    GoBT.Gen.intConsts.lookup "sighash.All" = some (fAll : Int) ∧ GoBT.Gen.intConsts.lookup "sighash.None" = some (fNone : Int) ∧
+    GoBT.Gen.intConsts.lookup "sighash.Single" = some (fSingle : Int) ∧
+    GoBT.Gen.intConsts.lookup "sighash.AnyOneCanPay" = some (fAnyOneCanPay : Int) ∧
+    GoBT.Gen.intConsts.lookup "sighash.ForkID" = some (fForkID : Int) ∧ GoBT.Gen.intConsts.lookup "sighash.Mask" = some (fMask : Int) := by
+  decide +kernel
 
 end GoBT.C02
